@@ -426,7 +426,6 @@ func RunPinned(prog *ssa.Program, hpkg *ssa.Package, cfg *Config, values []strin
 	return w.RunPath(entry, nil, values), nil
 }
 
-
 // Job / Outcome mirror the native runtime's batch interface (differential validation, replay).
 type Job struct {
 	Entry  string         `json:"entry"`
@@ -502,7 +501,6 @@ func RunJobs(prog *ssa.Program, hpkg *ssa.Package, cfg *Config, jobs []Job) ([]O
 	}
 	return outs, nil
 }
-
 
 func nondetTerms(ns []NondetRec) []*Term {
 	out := make([]*Term, len(ns))
